@@ -18,6 +18,7 @@ from __future__ import annotations
 
 from abc import abstractmethod
 from typing import TYPE_CHECKING
+from typing import Any
 from typing import NoReturn
 from typing import final
 
@@ -52,6 +53,17 @@ class ProcessDiscipline(Discipline):
     def disciplines(self) -> tuple[BaseDiscipline, ...]:
         """The disciplines."""
         return self.__disciplines
+
+    def set_cache(  # noqa: D102
+        self,
+        cache_type: Discipline.CacheType,
+        tolerance: float = 0.0,
+        **kwargs: Any,
+    ) -> None:
+        super().set_cache(cache_type, tolerance=tolerance, **kwargs)
+        if self.cache is not None:
+            # A new cache does not propagate its tolerance changes yet.
+            self.cache._post_set_tolerance = self._post_set_cache_tolerance
 
     def _post_set_cache_tolerance(self) -> None:
         """Propagate a cache tolerance change to the sub-disciplines."""
